@@ -161,6 +161,9 @@ func runC14(e *Env) {
 
 	// all chains up to length 6
 	maxLen := 6
+	if e.Thorough {
+		maxLen = 8
+	}
 	var chains []string
 	var gen func(s string)
 	gen = func(s string) {
@@ -188,9 +191,9 @@ func runC14(e *Env) {
 	e.R.AddPart(ev.Part{Name: "chains-in-process", Enumerated: fmt.Sprintf("all %d chains over {p,r,d,s} of length 1..%d from all 28 keys", len(chains), maxLen), Executions: int64(total), Exhaustive: true})
 
 	// CLI chains
-	cliLen := 3
+	cliLen := 4
 	if e.Thorough {
-		cliLen = 4
+		cliLen = 5
 	}
 	var cc []c14Case
 	for _, ch := range chains {
